@@ -1,4 +1,5 @@
 mod check;
+mod custom;
 mod gen;
 mod judge;
 mod minijson;
@@ -195,16 +196,61 @@ fn run_check(args: &[String]) -> i32 {
     let t0 = std::time::Instant::now();
     let mut rng = Rng(ctx.seed ^ prop.bytes().fold(0u64, |a, b| a.wrapping_mul(131).wrapping_add(b as u64)));
     let plan = props::plan(&ctx, &mut rng, ctx.tier);
-    let mut o = check::run_cases(&ctx, &plan.cases, &*plan.judge, plan.stages);
+    let cli_bin = arg_after(args, "--cli-bin").unwrap_or_default();
+    let py_ext = arg_after(args, "--py-ext");
+    let py_script = format!("{}/py/pycheck.py", ctx.verif_dir);
+    let mut explanation = plan.explanation.clone();
+    let mut o = match prop.as_str() {
+        "C10" => {
+            explanation = "order/duplicates of the list, repeated build(), clone, setter order with build() in between, field-by-field configuration, 16 threads and fresh processes (fresh hash seeds) on a hash-order-sensitive family: every variant must equal a fresh builder's output; outputs compared with the Lean model".into();
+            custom::run_c10(&ctx, &mut rng, ctx.tier).0
+        }
+        "C12" => {
+            explanation = "the grex binary built from the current tree on four input channels x LF/CRLF x final newline x long/short flags against the in-process library; unusable inputs must end with a non-zero exit, one line on stderr and no panic; from_file against from".into();
+            let mut o = custom::run_c12(&ctx, &mut rng, ctx.tier, &cli_bin);
+            o.notes.push("process plumbing (exit status, stderr, terminal detection) is observed, not modelled".into());
+            o
+        }
+        "C14" => {
+            explanation = "the extension built from the current tree, loaded into CPython: returned pattern = library pattern with every \\u{..} rewritten (independent reference rewrite and the Lean model's), re.compile, fullmatch of every test case when no class option is on, ValueError messages".into();
+            let mut o = custom::run_c14(&ctx, &mut rng, ctx.tier, py_ext.as_deref(), &py_script);
+            custom::api_compare(&ctx, "py", &mut o);
+            o
+        }
+        "C17" => {
+            explanation = "the module cannot be executed here (no wasm32 target, no JS host): the tie is the translator, regenerated on every run; the generated wasm setters are compared with the generated library setters by the theorems and, executably, on 17 setters x 7 arguments x 2 configurations".into();
+            let mut o = check::Outcome::default();
+            o.rule = "a case is (setter, argument, start configuration) evaluated in the generated semantics; all are counted as non-trivial when the two front ends were both found in the source".into();
+            custom::api_compare(&ctx, "wasm", &mut o);
+            for i in 0..o.evaluations { o.nontrivial.insert(i as u64); }
+            o
+        }
+        _ => check::run_cases(&ctx, &plan.cases, &*plan.judge, plan.stages),
+    };
     o.exhaustive = plan.exhaustive;
     let judge = &plan.judge;
-    let rejudge = |c: &Case| -> Vec<judge::Fail> { judge(c, &build_impl(c)) };
+    let seed = ctx.seed;
+    let rejudge = |c: &Case| -> Vec<judge::Fail> {
+        match prop.as_str() {
+            "C10" => custom::c10_variants(c, seed),
+            "C12" | "C14" | "C17" => vec![judge::Fail::new(judge::Kind::Other, "not re-judged".into(), None)],
+            _ => judge(c, &build_impl(c)),
+        }
+    };
     let search = || -> check::Outcome {
         // deeper, oracle-only exploration of the same property
         let mut rng2 = Rng(ctx.seed.wrapping_add(0x5eed));
-        let deep = props::plan(&ctx, &mut rng2, check::Tier::Thorough);
         let quiet = check::Ctx { model: model::Model { driver: None, procs: 1 }, ..make_ctx(args, &prop) };
-        check::run_cases(&quiet, &deep.cases, &*deep.judge, false)
+        match prop.as_str() {
+            "C10" => custom::run_c10(&quiet, &mut rng2, check::Tier::Thorough).0,
+            "C12" => custom::run_c12(&quiet, &mut rng2, check::Tier::Thorough, &cli_bin),
+            "C14" => custom::run_c14(&quiet, &mut rng2, check::Tier::Thorough, py_ext.as_deref(), &py_script),
+            "C17" => check::Outcome::default(),
+            _ => {
+                let deep = props::plan(&ctx, &mut rng2, check::Tier::Thorough);
+                check::run_cases(&quiet, &deep.cases, &*deep.judge, false)
+            }
+        }
     };
     if args.iter().any(|a| a == "--show-diffs") {
         for (c, a, b) in o.model_diffs.iter().take(8) {
@@ -216,7 +262,7 @@ fn run_check(args: &[String]) -> i32 {
         println!("{}", l);
     }
     let ev = arg_after(args, "--evidence").unwrap_or(format!("{}/evidence/{}.json", ctx.verif_dir, prop));
-    check::write_evidence(&ctx, &o, &v, t0.elapsed().as_secs_f64(), &ev, &[], &plan.explanation);
+    check::write_evidence(&ctx, &o, &v, t0.elapsed().as_secs_f64(), &ev, &[], &explanation);
     println!(
         "# {} {:?}: {} evaluations, {} distinct non-trivial, {} compared with the model ({} differences), {} implementation-vs-oracle failures ({} covered by known findings), {:.1}s",
         prop,
@@ -236,6 +282,7 @@ fn main() {
     let args: Vec<String> = std::env::args().collect();
     match args.get(1).map(|s| s.as_str()) {
         Some("probe") => probe(),
+        Some("serve") => custom::serve(),
         Some("dump") => {
             // gv dump <bits> <min_rep> <min_len> <hex;hex;...>
             silence_panics();
